@@ -239,6 +239,7 @@ class _HGen:
         self.size = size
         self.below = {}  # block name -> list of flags dicts of definitions in lower templates (root first)
         self.scoped_names = set()
+        self.loop_names = set()  # blocks placed inside a loop (scoped or not): their bodies mostly read loop names
         self.macros = []  # macro names defined at top level of lower templates
         self.used = set()  # block names defined in the template being built
         self.cur_macros = []
@@ -295,6 +296,7 @@ class _HGen:
         below = self.below.get(name, [])
         nbelow = len(below)
         loopy = name in self.scoped_names
+        reads_loop = loopy or name in self.loop_names
         items = []
         n = d(st.integers(0, self.size))
         for _ in range(n):
@@ -320,7 +322,7 @@ class _HGen:
             if k == "text":
                 items.append(self.text())
             elif k == "out":
-                items.append(["out", ["n", self.var(loopy)]])
+                items.append(["out", ["n", self.var(reads_loop)]])
             elif k == "super":
                 items.append(["out", ["super", 1]])
             elif k == "super2":
@@ -363,6 +365,7 @@ class _HGen:
                 body.append(["out", ["n", var]])
             else:
                 nm = d(st.sampled_from(free))
+                self.loop_names.add(nm)
                 if d(st.integers(0, 9)) < 7:
                     self.scoped_names.add(nm)  # decided before the body is drawn so that it reads loop names
                     node = self.block_node(nm, lvl, depth, in_loop=True)
